@@ -75,12 +75,44 @@ func (b *c14b) marker(file, fn string, line int, dead bool) int {
 
 func (b *c14b) v() string { b.nvar++; return "t" + itoa(b.nvar) }
 
+// nextLineFix moves marker id to the line about to be emitted (used when a
+// marker statement needs a preparatory line first).
+func (b *c14b) nextLineFix(file, fn string, id int) {
+	m := b.meta.Markers[id]
+	m.Line = len(*b.files[file]) + 1
+	b.meta.Markers[id] = m
+}
+
 // markerStmt emits one statement containing a marker call.
 func (b *c14b) markerStmt(file, fn, dvar string, indent int, dead bool) {
 	nextLine := len(*b.files[file]) + 1
 	id := b.marker(file, fn, nextLine, dead)
 	call := "mk.mark(" + itoa(id) + ", " + dvar + ")"
-	switch b.r.Intn(7) {
+	switch b.r.Intn(14) {
+	case 7:
+		x := b.v()
+		b.emit(file, fn, x+" := 0", indent)
+		b.nextLineFix(file, fn, id)
+		b.emit(file, fn, x+" += "+call, indent)
+	case 8:
+		x := b.v()
+		b.emit(file, fn, x+" := {k: 0}", indent)
+		b.nextLineFix(file, fn, id)
+		b.emit(file, fn, x+".k = "+call, indent)
+	case 9:
+		x := b.v()
+		b.emit(file, fn, x+" := [0, 1]", indent)
+		b.nextLineFix(file, fn, id)
+		b.emit(file, fn, x+"["+call+" - "+itoa(id)+"] = 5", indent)
+	case 10:
+		b.emit(file, fn, b.v()+" := true ? "+call+" : 0", indent)
+	case 11:
+		b.emit(file, fn, "for "+b.v()+" in ["+call+"] {", indent)
+		b.emit(file, fn, "}", indent)
+	case 12:
+		b.emit(file, fn, b.v()+" := func(q, r) { return q }(["+call+", 2]...)", indent)
+	case 13:
+		b.emit(file, fn, b.v()+" := func(q) { return q }("+call+")", indent)
 	case 0:
 		b.emit(file, fn, call, indent)
 	case 1:
@@ -245,7 +277,11 @@ func (b *c14b) defAndCall(file, fn, dvar string, indent, level int) {
 		callLine := b.emit(file, fn, name+"("+itoa(D)+")", indent)
 		b.meta.Funcs[name] = C14Func{File: file, Parent: fn, CallFile: file, CallLine: callLine, RecLine: recLine, Depth: D}
 	} else {
-		b.emit(file, fn, name+" := func(a) {", indent)
+		if b.r.Chance(1, 4) {
+			b.emit(file, fn, name+" := func(a, ...rest) {", indent)
+		} else {
+			b.emit(file, fn, name+" := func(a) {", indent)
+		}
 		b.body(file, name, "0", indent+1, level+1)
 		b.emit(file, name, "return a + 1", indent+1)
 		if b.r.Chance(1, 2) {
@@ -253,7 +289,23 @@ func (b *c14b) defAndCall(file, fn, dvar string, indent, level int) {
 		}
 		b.emit(file, fn, "}", indent)
 		var callLine int
-		switch b.r.Intn(3) {
+		switch b.r.Intn(9) {
+		case 3:
+			callLine = b.emit(file, fn, b.v()+" := "+name+"([4]...)", indent)
+		case 4:
+			x := b.v()
+			b.emit(file, fn, x+" := 0", indent)
+			b.emit(file, fn, "for "+b.v()+" in [1] {", indent)
+			callLine = b.emit(file, fn, x+" += "+name+"(5)", indent+1)
+			b.emit(file, fn, "}", indent)
+		case 5:
+			callLine = b.emit(file, fn, b.v()+" := true ? "+name+"(6) : 0", indent)
+		case 6:
+			callLine = b.emit(file, fn, b.v()+" := {k: "+name+"(7)}.k", indent)
+		case 7:
+			callLine = b.emit(file, fn, b.v()+" := [1, 2, 3]["+name+"(0)]", indent)
+		case 8:
+			callLine = b.emit(file, fn, b.v()+" := func(q) { return q }("+name+"(8))", indent)
 		case 0:
 			callLine = b.emit(file, fn, b.v()+" := "+name+"(1) * 2", indent)
 		case 1:
@@ -285,11 +337,30 @@ func genC14(r *plan.Rng) *plan.Plan {
 	b.emit(rootFile, "<root>", "mk := import(\"mk\")", 0)
 	// optional source module with functions called from the root file
 	useMod := r.Chance(1, 2)
+	useSub := false
 	if useMod {
 		mod := []string{}
 		b.files["lib"] = &mod
 		b.emit("lib", "<lib>", "mk := import(\"mk\")", 0)
 		b.emit("lib", "<lib>", "base := 10", 0)
+		if b.r.Chance(1, 2) {
+			// a second source file, imported from the first module
+			sub := []string{}
+			b.files["sub"] = &sub
+			b.emit("sub", "<sub>", "mk := import(\"mk\")", 0)
+			b.emit("sub", "<sub>", "pad := \"xxxxxxxxxxxxxxxxxxxxxxxxxxxxxxxxxxxxxxxx\"", 0)
+			b.markerStmt("sub", "<sub>", "0", 0, false)
+			b.emit("sub", "<sub>", "sf := func(a) {", 0)
+			b.body("sub", "sf", "0", 1, 3)
+			b.emit("sub", "sf", "return a", 1)
+			b.emit("sub", "<sub>", "}", 0)
+			b.emit("sub", "<sub>", "export {sf: sf}", 0)
+			impLine := b.emit("lib", "<lib>", "sub := import(\"sub\")", 0)
+			callLine := b.emit("lib", "<lib>", "base = sub.sf(base)", 0)
+			b.meta.Funcs["<sub>"] = C14Func{File: "sub", Parent: "<lib>", CallFile: "lib", CallLine: impLine}
+			b.meta.Funcs["sf"] = C14Func{File: "sub", Parent: "<lib>", CallFile: "lib", CallLine: callLine}
+			useSub = true
+		}
 		if r.Chance(1, 2) {
 			b.markerStmt("lib", "<lib>", "0", 0, false) // executed when the module is imported
 		}
@@ -337,6 +408,10 @@ func genC14(r *plan.Rng) *plan.Plan {
 	if useMod {
 		p.Modules = append(p.Modules, plan.Module{Name: "lib", Src: lines(*b.files["lib"]...)})
 		mods = append(mods, "lib")
+	}
+	if useSub {
+		p.Modules = append(p.Modules, plan.Module{Name: "sub", Src: lines(*b.files["sub"]...)})
+		mods = append(mods, "sub")
 	}
 	mainSrc := lines(root...)
 	if asModule {
